@@ -15,7 +15,7 @@ from . import sut
 from .rng import sub, digest
 from .party import Party, SchedulerCrash
 from .build import build_sim
-from .world import last_event_time
+from .world import last_event_time, valid_refill
 
 np = sut.np
 
@@ -262,6 +262,7 @@ def run_world(sc, observe=0, snapshot=True, setup=None, mutate_constraints=True,
     tr.exc_kind = None
     tr.rejections = []
     tr.resumes = []
+    tr.refills = []
     tr.terminal = None
     scratch = None
     saved_tap = _install_tap()
@@ -278,6 +279,11 @@ def run_world(sc, observe=0, snapshot=True, setup=None, mutate_constraints=True,
             warnings.simplefilter("always")
             party = Party(sc, ctx)
             tr.party = party
+            # 'refill': the events at or after each cut time are handed to the simulator only after run() has returned (the
+            # operator extends a finished simulation through the public event queue and calls run() again)
+            cuts = valid_refill(sc)
+            later = []
+            refills = 0
             sl = sc.get("second_life")
             if sl and sc["network"]["kind"] == "custom":
                 # first life: the same scenario, fault-free, run to completion; the second life (the one that is observed and
@@ -315,10 +321,10 @@ def run_world(sc, observe=0, snapshot=True, setup=None, mutate_constraints=True,
                 if sl.get("algo") and party1.inner is not None:
                     party.inner = party1.inner
                 sim = build_sim(sc, party, network=sim1.network if sl.get("network") else None, reuse_evs=reuse_evs,
-                                reuse_queue=sim1.event_queue if sl.get("queue") else None)
+                                reuse_queue=sim1.event_queue if sl.get("queue") else None, later=later, cuts=cuts)
                 ctx.fired("second_life")
             else:
-                sim = build_sim(sc, party)
+                sim = build_sim(sc, party, later=later, cuts=cuts)
             ctx.sim = sim
             tr.sim0 = sim
             if sc["sim"].get("json_clone"):
@@ -336,6 +342,15 @@ def run_world(sc, observe=0, snapshot=True, setup=None, mutate_constraints=True,
                     raise HarnessError("resume loop guard")
                 try:
                     ctx.sim.run()
+                    if refills < len(cuts):
+                        refills += 1
+                        batch = [e for b_, e in later if b_ == refills]
+                        ctx.log(("refill", ctx.sim.iteration, len(batch)))
+                        ctx.fired("refill")
+                        tr.refills.append({"t": ctx.sim.iteration, "cut": cuts[refills - 1], "n": len(batch)})
+                        if batch:
+                            ctx.sim.event_queue.add_events(batch)
+                        continue
                     break
                 except SchedulerCrash as c:
                     mode = c.fault.get("resume", "rerun")
